@@ -11,6 +11,16 @@
 (*   mean-centred cell     = (row*x - ColSum) / row                                                           *)
 (*   covariance[i][j]      = (row*ColCross(i,j) - ColSum(i)*ColSum(j)) / (row*(row-1))                        *)
 (*   Matrixnorm^2          = SumSq          MatrixNorm cell^2 * SumSq = cell^2                                *)
+(* Second batch (families DVector2, MatMaps, DescStat, DescStatMiss, Correl, Division and the extended Tensor):   *)
+(*   v/|v| cell^2          = v[i]^2 / Dot(v,v)              median = Median2 / 2                                 *)
+(*   harmonic mean         = n * 60 / sum_i (60 / x_i)      (operands 1..6, every x_i divides 60)               *)
+(*   population variance   = ColVarNum / n^2                sample variance = ColVarNum / (n (n-1))              *)
+(*   CV^2 (percent)        = 10000 * variance / mean^2                                                          *)
+(*   row-sum scaling cell  = x / RowSum                     SNV cell^2 = (c x - RowSum)^2 (c-1) / (c RowVarNum)  *)
+(*   Pearson r[i][j]       = CovNum[i][j] / sqrt(CovNum[i][i] CovNum[j][j])        (r^2 is rational)             *)
+(*   Spearman rho[i][j]    = (n(n^2-1) - 6 sum_i (rank_i(col i) - rank_i(col j))^2) / (n(n^2-1))   (tie-free)    *)
+(*   v / M                 = the x with x M = v  (M strictly diagonally dominant; Cramer's rule for n <= 4)      *)
+(*   log10(x+1), sqrt(x)   : exact on powers of ten / squares, integer brackets elsewhere                        *)
 EXTENDS IntMat, FiniteSets, TLC, Json
 CONSTANTS KernelSet,            \* case families to enumerate (strings below)
           RSet, KSet, CSet,     \* MatrixDotProduct: every shape triple of RSet x KSet x CSet ...
@@ -18,6 +28,7 @@ CONSTANTS KernelSet,            \* case families to enumerate (strings below)
           DSet,                 \* rows / columns of the two-operand kernels, the vectors and the tensor slices
           SliceSet,             \* numbers of tensor slices
           SortCols,             \* column counts of the matrices that are sorted
+          ESet,                 \* rows / columns of the second-batch matrix families (MatMaps, DescStat, DescStatMiss, Correl)
           SeedSet,              \* operand fills per shape (0 = the base fill)
           DoEmit                \* TRUE: print every case with its expected results; FALSE: laws only
 
@@ -64,15 +75,73 @@ ExchangeSort(d, key, rev) == ExOuter(d, 1, key, rev)
 Perms(n) == {f \in [1..n -> 1..n] : \A a, b \in 1..n : a # b => f[a] # f[b]}
 SortResults(d, key, rev) == {[i \in 1..Len(d) |-> d[p[i]]] : p \in {q \in Perms(Len(d)) : Ordered([i \in 1..Len(d) |-> d[q[i]]], key, rev)}}
 
+(* ---- second batch: definitions --------------------------------------------------------------------- *)
+(* element-wise maps *)
+SqI(x) == x * x
+SquareMap(X) == MapMat(X, SqI)
+AbsMap(X) == MapMat(X, AbsI)
+SqrtFloorMap(X) == MapMat(X, IntSqrt)                              \* floor(sqrt(x)) of a non-negative matrix
+(* log10(x+1) (the definition pinned by test 40 of testmatrix.c): 3*log10(x+1) is bracketed by integers;   *)
+(* the bracket is exact (value = lo/3) when x+1 is a power of ten                                           *)
+IsPow10(y) == \E p \in 0..9 : Pow10(p) = y
+Log10Of(y) == CHOOSE p \in 0..9 : Pow10(p) = y
+LogLo3(x) == IF IsPow10(x + 1) THEN 3 * Log10Of(x + 1)
+             ELSE CHOOSE q \in 0..8 : Pow10(q) <= (x + 1) * (x + 1) * (x + 1) /\ (x + 1) * (x + 1) * (x + 1) < Pow10(q + 1)
+LogLoMap(X) == MapMat(X, LogLo3)
+LogExactMap(X) == MapMat(X, LAMBDA x : IF IsPow10(x + 1) THEN 1 ELSE 0)
+(* row scalings: division by the row sum (MatrixRowCenterScaling, pinned by test 58) and the standard normal variate *)
+RowVarNum(X, i) == X.col * Dot(X.d[i], X.d[i], X.col) - RowSum(X, i) * RowSum(X, i)
+SvnDev(X, i, j) == X.col * X.d[i][j] - RowSum(X, i)                 \* col * (x - row mean)
+SvnNum(X) == Mat(X.row, X.col, LAMBDA i, j : SgnI(SvnDev(X, i, j)) * SvnDev(X, i, j) * SvnDev(X, i, j) * (X.col - 1))
+SvnDen(X) == [i \in 1..X.row |-> X.col * RowVarNum(X, i)]
+(* column statistics of MatrixColDescStat over a column x of n entries *)
+HarmL == 60
+PosMat(X) == MapMat(X, LAMBDA x : AbsI(x) + 1)                       \* entries 1..6: every entry divides HarmL
+ColMins(X) == [j \in 1..X.col |-> VecMin(Column(X, j), X.row)]
+ColMaxs(X) == [j \in 1..X.col |-> VecMax(Column(X, j), X.row)]
+ColMed2s(X) == [j \in 1..X.col |-> Median2(Column(X, j), X.row)]
+ColHarmDens(X) == [j \in 1..X.col |-> SumF([i \in 1..X.row |-> HarmL \div X.d[i][j]], X.row)]
+ColZeros(X) == [j \in 1..X.col |-> Cardinality({i \in 1..X.row : X.d[i][j] = 0})]
+(* the same statistics when one entry per column is the MISSING code: they are those of the column without it *)
+MissRow(X, j) == IF j % 2 = 1 THEN ((3 * j) % X.row) + 1 ELSE 0         \* odd columns carry one missing cell
+ColLess(X, j) == IF MissRow(X, j) = 0 THEN Column(X, j) ELSE Without(Column(X, j), X.row, MissRow(X, j))
+ColN(X, j) == IF MissRow(X, j) = 0 THEN X.row ELSE X.row - 1
+MissStats(X) == [j \in 1..X.col |-> LET x == ColLess(X, j)  n == ColN(X, j) IN
+                   <<n, SumF(x, n), Median2(x, n), n * Dot(x, x, n) - SumF(x, n) * SumF(x, n), VecMin(x, n), VecMax(x, n),
+                     Cardinality({i \in 1..n : x[i] = 0}), X.row - n>>]
+(* extreme cell of a matrix: WHAT is promised (the returned position holds an extreme value; any one of them on ties) ... *)
+IsArgExt(d, rows, cols, i, j, mx) == /\ i \in 1..rows /\ j \in 1..cols
+                                     /\ \A a \in 1..rows, b \in 1..cols : IF mx THEN d[a][b] <= d[i][j] ELSE d[a][b] >= d[i][j]
+(* ... and HOW matrix.c scans: column by column over every row, the last extreme cell wins *)
+LastArgExt(d, rows, cols, i, j, mx) == /\ IsArgExt(d, rows, cols, i, j, mx)
+                                       /\ \A a \in 1..rows, b \in 1..cols : d[a][b] = d[i][j] => (b < j \/ (b = j /\ a <= i))
+(* correlation matrices *)
+PermFill(s, rr, cc) == Mat(rr, cc, LAMBDA i, j : ((((7 * j + 3 * s) % 18) + 1) * i) % 19)   \* every column tie-free for rr <= 18
+RankMat(X) == Mat(X.row, X.col, LAMBDA i, j : RankIn(Column(X, j), X.row, i))
+SpearDen(n) == n * (n * n - 1)
+SpearNum(X) == LET R == RankMat(X).d  n == X.row IN
+  Mat(X.col, X.col, LAMBDA a, b : SpearDen(n) - 6 * SumF([i \in 1..n |-> (R[i][a] - R[i][b]) * (R[i][a] - R[i][b])], n))
+MonoCols(X) == Mat(X.row, X.col, LAMBDA i, j : IF j % 2 = 1 THEN X.d[i][j] * X.d[i][j] * X.d[i][j] + j ELSE 2 * X.d[i][j] - 7)
+(* right division v / M *)
+DiagDom(X) == \A i \in 1..X.row : AbsI(X.d[i][i]) > SumF([j \in 1..X.col |-> IF j = i THEN 0 ELSE AbsI(X.d[i][j])], X.col)
+(* tensor: slice-wise transpose, column statistics per slice, Kronecker product laid out as slices *)
+TenTranspose(T, kk) == [s \in 1..kk |-> Transpose(T[s])]
+TenColSums(T, kk, cc) == Mat(cc, kk, LAMBDA j, s : ColSum(T[s], j))
+TenColVarNums(T, kk, cc) == Mat(cc, kk, LAMBDA j, s : ColVarNum(T[s])[j])
+KronTensor(v, X, kk, rr, cc) == [s \in 1..kk |-> Mat(rr, cc, LAMBDA i, j : v[i] * X.d[j][s])]    \* X is cc x kk
+
 (* ---- the enumerated case space -------------------------------------------------------------------- *)
 VARIABLES kern, r, k, c, sd, st
 vars == <<kern, r, k, c, sd, st>>
 TwoDim == {"MatVec", "VecMat", "Outer", "Transpose", "Trace", "Norm", "ColStats", "Covariance"}
-RowsOf(f) == IF f = "MatrixDotProduct" THEN RSet \cup XRC ELSE DSet
+TwoDimE == {"MatMaps", "DescStat", "DescStatMiss", "Correl"}
+RowsOf(f) == IF f = "MatrixDotProduct" THEN RSet \cup XRC ELSE IF f \in TwoDimE THEN ESet ELSE DSet
 KCOf(f, rr) ==
   CASE f = "MatrixDotProduct" -> {<<kk, cc>> \in KSet \X CSet : rr \in RSet} \cup {<<kk, cc>> \in XK \X XRC : rr \in XRC}
     [] f \in TwoDim -> {<<0, cc>> : cc \in DSet}
-    [] f = "DVector" -> {<<0, 1>>}
+    [] f \in TwoDimE -> {<<0, cc>> : cc \in ESet}
+    [] f \in {"DVector", "DVector2"} -> {<<0, 1>>}
+    [] f = "Division" -> {<<0, rr>>}
     [] f = "Tensor" -> SliceSet \X DSet
     [] f = "Sort" -> {<<kk, cc>> \in SortCols \X SortCols : kk <= cc}       \* k = key column (1-based)
 Init == kern \in KernelSet /\ r \in RowsOf(kern) /\ sd \in SeedSet /\ k = 0 /\ c = 0 /\ st = 0
@@ -92,6 +161,11 @@ Wr == FillVec(S(7), r)
 Ten == [s \in 1..k |-> FillMat(S(10 + s), r, c)]
 Mck == FillMat(S(8), c, k)
 Ms == FillMat(S(9), r, c)
+Pm == PosMat(M)                                                        \* positive operand (harmonic mean, CV)
+Lg == Mat(r, c, LAMBDA i, j : LET p == Fill(S(15), i, j) + 5 IN IF p <= 6 THEN Pow10(p) - 1 ELSE 3 * p * p)   \* 0, 9, .., 999999, 147, 192, 243, 300
+Qm == PermFill(sd, r, c)                                               \* tie-free columns (rank correlation)
+Xs == FillVec(S(16), r)
+Mdd == Mat(r, r, LAMBDA i, j : Fill(S(17), i, j) + (IF i = j THEN 5 * r + 1 ELSE 0))    \* strictly diagonally dominant
 
 CaseRec ==
   LET hd == [kern |-> kern, r |-> r, k |-> k, c |-> c, sd |-> sd] IN
@@ -106,7 +180,23 @@ CaseRec ==
     [] kern = "Covariance" -> hd @@ [inp |-> <<M.d>>, out |-> <<CovNum(M).d, <<r * (r - 1)>>>>]
     [] kern = "DVector" -> hd @@ [inp |-> <<Vr, Wr>>, out |-> <<<<Dot(Vr, Wr, r), Dot(Vr, Vr, r), SumF(Vr, r), r * Dot(Vr, Vr, r) - SumF(Vr, r) * SumF(Vr, r)>>>>]
     [] kern = "Tensor" -> hd @@ [inp |-> <<[s \in 1..k |-> Ten[s].d], Vc, Vr, Mck.d>>,
-                                 out |-> <<TenVec(Ten, Vc, k, r, c).d, VecTen(Ten, Vr, k, r, c).d, TenMat(Ten, Mck, k, r, c)>>]
+                                 out |-> <<TenVec(Ten, Vc, k, r, c).d, VecTen(Ten, Vr, k, r, c).d, TenMat(Ten, Mck, k, r, c),
+                                           [s \in 1..k |-> TenTranspose(Ten, k)[s].d], TenColSums(Ten, k, c).d, TenColVarNums(Ten, k, c).d,
+                                           [s \in 1..k |-> KronTensor(Vr, Mck, k, r, c)[s].d]>>]
+    [] kern = "DVector2" -> hd @@ [inp |-> <<Vr, Wr>>,
+                                   out |-> <<VecSub(Vr, Wr), VecAdd(Vr, Wr),
+                                             IF r >= 1 THEN <<VecMin(Vr, r), VecMax(Vr, r), Median2(Vr, r)>> ELSE <<>>, <<Dot(Vr, Vr, r)>>>>]
+    [] kern = "MatMaps" -> hd @@ [inp |-> <<M.d, Lg.d>>,
+                                  out |-> <<SquareMap(M).d, AbsMap(M).d, RowSums(M), SvnNum(M).d, SvnDen(M),
+                                            IF r = c THEN IdentityMat(r).d ELSE <<>>, LogLoMap(Lg).d, LogExactMap(Lg).d, SqrtFloorMap(AbsMap(M)).d>>]
+    [] kern = "DescStat" -> hd @@ [inp |-> <<Pm.d, M.d>>,
+                                   out |-> IF r = 0 THEN <<>> ELSE
+                                           <<ColSums(Pm), ColMed2s(Pm), ColHarmDens(Pm), ColVarNum(Pm), ColMins(Pm), ColMaxs(Pm), ColZeros(Pm),
+                                             ColSums(M), ColMed2s(M), ColVarNum(M), ColMins(M), ColMaxs(M), ColZeros(M)>>]
+    [] kern = "DescStatMiss" -> hd @@ [inp |-> <<M.d, [j \in 1..c |-> IF r >= 3 THEN MissRow(M, j) ELSE 0]>>,
+                                       out |-> IF r >= 3 THEN <<MissStats(M)>> ELSE <<>>]
+    [] kern = "Correl" -> hd @@ [inp |-> <<M.d, Qm.d>>, out |-> <<CovNum(M).d, SpearNum(Qm).d, <<SpearDen(r)>>>>]
+    [] kern = "Division" -> hd @@ [inp |-> <<VecMat(Xs, Mdd), Mdd.d>>, out |-> <<Xs>>]
     [] kern = "Sort" -> hd @@ [inp |-> <<Ms.d>>, out |-> <<>>]
 EmitCase == (DoEmit /\ st = 1) => PrintT("@@" \o ToJson(CaseRec))
 
@@ -145,4 +235,79 @@ LawSort == On("Sort") => \A rev \in BOOLEAN :
   /\ (r <= 5 => /\ ExchangeSort(Ms.d, k, rev) \in SortResults(Ms.d, k, rev)
                 /\ \A x \in SortResults(Ms.d, k, rev) : IsSortOf(x, Ms.d, k, rev)
                 /\ \A x, y \in SortResults(Ms.d, k, rev) : [i \in 1..r |-> x[i][k]] = [i \in 1..r |-> y[i][k]])
+
+(* ---- laws of the second batch ---------------------------------------------------------------------- *)
+LawVecDiffSum == On("DVector2") =>
+  /\ SumF(VecSub(Vr, Wr), r) = SumF(Vr, r) - SumF(Wr, r)                      \* sum(diff) = sum(a) - sum(b)
+  /\ SumF(VecAdd(Vr, Wr), r) = SumF(Vr, r) + SumF(Wr, r)
+  /\ VecAdd(VecSub(Vr, Wr), Wr) = Vr /\ VecSub(VecAdd(Vr, Wr), Wr) = Vr
+  /\ Len(VecSub(Vr, Wr)) = r /\ Len(VecAdd(Vr, Wr)) = r
+OrderStatsLight(x, n) ==
+  /\ 2 * VecMin(x, n) <= Median2(x, n) /\ Median2(x, n) <= 2 * VecMax(x, n)  \* min <= median <= max
+  /\ 2 * Cardinality({i \in 1..n : 2 * x[i] <= Median2(x, n)}) >= n           \* at least half of the entries on either side
+  /\ 2 * Cardinality({i \in 1..n : 2 * x[i] >= Median2(x, n)}) >= n
+  /\ n * VecMin(x, n) <= SumF(x, n) /\ SumF(x, n) <= n * VecMax(x, n)         \* min <= mean <= max
+OrderStatsOK(x, n) ==
+  /\ OrderStatsLight(x, n)
+  /\ VecMin(x, n) = Kth(x, n, 1) /\ VecMax(x, n) = Kth(x, n, n)
+  /\ \A q \in 1..(n - 1) : Kth(x, n, q) <= Kth(x, n, q + 1)                   \* the order statistics are ordered ...
+  /\ \A y \in {x[i] : i \in 1..n} : Cardinality({q \in 1..n : Kth(x, n, q) = y}) = Cardinality({q \in 1..n : x[q] = y})   \* ... and a permutation of x
+LawOrderStats == (On("DVector2") /\ r >= 1) => OrderStatsOK(Vr, r)
+LawUnitNorm == (On("DVector2") /\ Dot(Vr, Vr, r) > 0) =>                        \* | v/|v| |^2 = sum_i v[i]^2 / Dot(v,v) = 1
+  SumF([i \in 1..r |-> Vr[i] * Vr[i]], r) = Dot(Vr, Vr, r)
+LawMaps == On("MatMaps") =>
+  /\ SqrtFloorMap(SquareMap(M)) = AbsMap(M)                                    \* sqrt(x^2) = |x|
+  /\ SquareMap(AbsMap(M)) = SquareMap(M) /\ AbsMap(AbsMap(M)) = AbsMap(M)
+  /\ SumSq(M) = SumF([i \in 1..r |-> RowSum(SquareMap(M), i)], r)
+  /\ \A i \in 1..r, j \in 1..c : LET x == AbsMap(M).d[i][j]  s == SqrtFloorMap(AbsMap(M)).d[i][j] IN s * s <= x /\ x < (s + 1) * (s + 1)
+  /\ \A i \in 1..r, j \in 1..c : LET x == Lg.d[i][j]  q == LogLoMap(Lg).d[i][j] IN        \* 10^q <= (x+1)^3 < 10^(q+1)
+        IF LogExactMap(Lg).d[i][j] = 1 THEN q % 3 = 0 /\ Pow10(q \div 3) = x + 1
+        ELSE Pow10(q) <= (x + 1) * (x + 1) * (x + 1) /\ (x + 1) * (x + 1) * (x + 1) < Pow10(q + 1)
+  /\ \A i \in 1..r : SumF([j \in 1..c |-> SvnDev(M, i, j)], c) = 0              \* SNV rows have mean 0 ...
+  /\ \A i \in 1..r : SumF([j \in 1..c |-> SvnDev(M, i, j) * SvnDev(M, i, j)], c) = SvnDen(M)[i]   \* ... and sample variance 1
+  /\ \A i \in 1..r : RowVarNum(M, i) >= 0
+  /\ (r = c => /\ MatMul(IdentityMat(r), M) = M /\ MatMul(M, IdentityMat(r)) = M /\ Transpose(IdentityMat(r)) = IdentityMat(r)
+               /\ Trace(IdentityMat(r)) = r)
+LawArgExt == (On("MatMaps") /\ r >= 1 /\ c >= 1 /\ r * c <= 36) => \A mx \in BOOLEAN :
+  LET pos == {p \in (1..r) \X (1..c) : IsArgExt(M.d, r, c, p[1], p[2], mx)} IN
+  /\ pos # {}                                                                   \* an extreme cell exists,
+  /\ \A p, p2 \in pos : M.d[p[1]][p[2]] = M.d[p2[1]][p2[2]]                    \* all of them hold the same value,
+  /\ Cardinality({p \in pos : LastArgExt(M.d, r, c, p[1], p[2], mx)}) = 1       \* and the scan order singles out one of them
+LawDescStat == (On("DescStat") /\ r >= 1) => \A j \in 1..c :
+  /\ OrderStatsLight(Column(M, j), r) /\ OrderStatsLight(Column(Pm, j), r)
+  /\ (r <= 6 => OrderStatsOK(Column(M, j), r))
+  /\ \A i \in 1..r : Pm.d[i][j] >= 1 /\ HarmL % Pm.d[i][j] = 0                 \* the harmonic sums below are exact
+  /\ r * r * HarmL <= ColSum(Pm, j) * ColHarmDens(Pm)[j]                        \* harmonic mean <= arithmetic mean
+  /\ r * HarmL >= ColHarmDens(Pm)[j] * ColMins(Pm)[j] /\ r * HarmL <= ColHarmDens(Pm)[j] * ColMaxs(Pm)[j]   \* min <= harmonic mean <= max
+  /\ ColVarNum(Pm)[j] >= 0 /\ ColVarNum(M)[j] >= 0 /\ ColVarNum(Pm)[j] = ColVarNum(AbsMap(M))[j]            \* variance ignores the location
+  /\ ColZeros(Pm)[j] = 0 /\ ColZeros(M)[j] = Cardinality({i \in 1..r : AbsMap(M).d[i][j] = 0})
+LawDescStatMiss == (On("DescStatMiss") /\ r >= 3) => \A j \in 1..c :
+  LET ms == MissStats(M)[j] IN
+  /\ ms[1] + ms[8] = r /\ ms[8] = (IF j % 2 = 1 THEN 1 ELSE 0)
+  /\ OrderStatsLight(ColLess(M, j), ColN(M, j))
+  /\ (ms[8] = 1 => ms[2] + M.d[MissRow(M, j)][j] = ColSum(M, j))               \* putting the removed cell back gives the plain sum
+  /\ (ms[8] = 0 => ms[2] = ColSum(M, j) /\ ms[3] = ColMed2s(M)[j] /\ ms[4] = ColVarNum(M)[j])
+LawCorrel == (On("Correl") /\ r >= 2) =>
+  LET Cv == CovNum(M)  Sp == SpearNum(Qm)  Rk == RankMat(Qm) IN
+  /\ Cv = Transpose(Cv)                                                        \* Pearson: symmetric,
+  /\ \A i, j \in 1..c : Cv.d[i][j] * Cv.d[i][j] <= Cv.d[i][i] * Cv.d[j][j]     \*   r^2 <= 1 (entries in [-1, 1]), r[i][i] = 1 trivially
+  /\ \A j \in 1..c : TieFree(Column(Qm, j), r)                                 \* Spearman operands are tie-free ...
+  /\ \A j \in 1..c : {Rk.d[i][j] : i \in 1..r} = 1..r                          \*   ... so the ranks are a permutation of 1..n
+  /\ Sp = Transpose(Sp) /\ \A j \in 1..c : Sp.d[j][j] = SpearDen(r)            \* symmetric with unit diagonal
+  /\ \A i, j \in 1..c : -SpearDen(r) <= Sp.d[i][j] /\ Sp.d[i][j] <= SpearDen(r)   \* entries in [-1, 1]
+  /\ \A i, j \in 1..c : 12 * CovNum(Rk).d[i][j] = r * Sp.d[i][j]                \* rho = Pearson correlation of the ranks
+  /\ SpearNum(MonoCols(Qm)) = Sp /\ RankMat(MonoCols(Qm)) = Rk                 \* invariant under strictly increasing maps of the columns
+LawDivision == On("Division") =>
+  /\ DiagDom(Mdd)                                                              \* hence nonsingular
+  /\ VecMat(Xs, Mdd) = MatVec(Transpose(Mdd), Xs)                              \* x M = (M' x)'
+  /\ (r <= 4 => LET dt == DetI(Transpose(Mdd).d, r) IN                          \* Cramer's rule: x = inv(M') v
+                  /\ dt # 0
+                  /\ \A i \in 1..r : Xs[i] * dt = DetI(ReplaceCol(Transpose(Mdd).d, r, i, VecMat(Xs, Mdd)), r))
+LawTensor2 == On("Tensor") =>
+  LET TT == TenTranspose(Ten, k)  KT == KronTensor(Vr, Mck, k, r, c) IN
+  /\ TenTranspose(TT, k) = Ten                                                 \* transposing twice is the identity
+  /\ \A s \in 1..k : TT[s].row = c /\ TT[s].col = r /\ \A i \in 1..r, j \in 1..c : TT[s].d[j][i] = Ten[s].d[i][j]
+  /\ \A s \in 1..k, j \in 1..c : TenColSums(Ten, k, c).d[j][s] = ColSums(Ten[s])[j] /\ TenColVarNums(Ten, k, c).d[j][s] >= 0
+  /\ (c >= 1 => \A s \in 1..k, i \in 1..r, j \in 1..c : KT[s].d[i][j] = Kron(Vr, Mck).d[(i - 1) * c + j][s])   \* a re-indexing of v (x) M
+  /\ \A s \in 1..k : KT[s] = Outer(Vr, Column(Mck, s))
 ====
